@@ -1,0 +1,43 @@
+//go:build verif
+
+package kgo
+
+import "math/rand"
+
+// This file exists only in builds with the `verif` tag. It lets an external
+// verification harness reach the unexported pieces of the partitioners.
+// Nothing here changes client behavior.
+
+// VerifMurmur2 exposes murmur2.
+func VerifMurmur2(b []byte) uint32 { return murmur2(b) }
+
+// VerifSetPartitionerRand replaces the private random source of a built-in
+// topic partitioner and reports whether tp has one.
+func VerifSetPartitionerRand(tp TopicPartitioner, rng *rand.Rand) bool {
+	switch p := tp.(type) {
+	case *stickyTopicPartitioner:
+		p.rng = rng
+	case *stickyKeyTopicPartitioner:
+		p.rng = rng
+	case *leastBackupTopicPartitioner:
+		p.rng = rng
+	case *uniformBytesTopicPartitioner:
+		p.rng = rng
+	default:
+		return false
+	}
+	return true
+}
+
+// VerifBackupIter builds the real backup iterator that doPartition hands to
+// TopicBackupPartitioner.PartitionByBackup, over partitions that have the
+// given numbers of buffered records.
+func VerifBackupIter(buffered []int64) TopicBackupIter {
+	in := new(leastBackupInput)
+	for _, b := range buffered {
+		tp := &topicPartition{records: new(recBuf)}
+		tp.records.buffered.Store(b)
+		in.mapping = append(in.mapping, tp)
+	}
+	return in
+}
